@@ -280,7 +280,7 @@ func genVal(prop string) func(rt *rapid.T) interface{} {
 		case "C11":
 			kinds = []string{"aset", "aconn", "kput", "kput", "kput", "ksub", "ksub", "kget", "kacc"}
 		case "C12":
-			kinds = []string{"aset", "aset", "aconn", "kput", "kput", "kput", "kget", "kacc"}
+			kinds = []string{"aset", "aset", "aconn", "agetter", "agetter", "kput", "kput", "kput", "kget", "kget", "kacc", "aget"}
 		}
 		// a small working set of characteristics, so that operations meet
 		nwork := rapid.IntRange(1, 4).Draw(rt, "nwork")
@@ -815,6 +815,12 @@ func (vw *valWorld) appOp(name string, op ValOp) {
 			vw.w.Sim.Count("ctor." + vc.name)
 			vw.record(vc.pos, porcupine.Operation{ClientId: clientID, Input: regInput{write: true, val: wr.value}, Call: int64(wr.inv), Output: "", Return: int64(wr.ret)})
 		}
+	case "agetter":
+		// the application supplies the value through a getter callback: it is asked on every read
+		v := vw.valueOf(vc, op)
+		vc.c.OnValueGet(func() interface{} { return v })
+		vw.w.Sim.Count("probe.value_getter_registered")
+		vc.c.GetValue()
 	case "aburst":
 		// three changes in a row, the last one back to the first value
 		a := vw.valueOf(vc, op)
